@@ -2,6 +2,7 @@
 import copy
 import itertools
 import operator
+import string
 
 PID = "C02"
 LEAN_MODULES = ["Pkgcore.Props.C02"]
@@ -46,7 +47,12 @@ SUFS = ["alpha", "beta", "pre", "rc", "p"]
 CATS = ["a", "a-b", "b"]
 PKGS = ["b", "bb", "b-c"]
 OPS = ["", "<", "<=", "=", "=*", ">=", ">", "~"]
-SLOTS = [None, "0", "1", "1.2", "a_b"]
+# slot / sub-slot names as the tree really uses them (small numbers, dotted "version" slots, words, mixed case, the odd punctuation) — every valid
+# spelling class of PMS 3.1.3: [A-Za-z0-9+_][A-Za-z0-9+_.-]*
+SLOT_POOL = ["0", "1", "2", "3", "10", "01", "0.9", "1.2", "2.7", "3.11", "1.2.3", "a_b", "stable", "Stable", "live", "LIVE", "2a", "2A",
+             "5.1-LTS", "5.1-lts", "+x", "_", "0-1"]
+SLOT_HEAD = "abzABZ0129+_"
+SLOT_TAIL = SLOT_HEAD + ".-"
 FLAGS = ["x", "y", "z", "foo"]
 REPOS = [None, "gentoo", "r-1"]
 
@@ -207,6 +213,73 @@ def gen_use(rng):
     return out
 
 
+SLOT_OK_HEAD = frozenset(string.ascii_letters + string.digits + "+_")
+SLOT_OK_TAIL = SLOT_OK_HEAD | frozenset(".-")
+
+
+def valid_slot_name(s):
+    return bool(s) and s[0] in SLOT_OK_HEAD and all(c in SLOT_OK_TAIL for c in s)
+
+
+def gen_slot_name(rng):
+    k = rng.random()
+    if k < 0.55:
+        return rng.choice(SLOT_POOL)
+    if k < 0.7:
+        return str(rng.choice([rng.randint(0, 12), rng.randint(0, 120)]))
+    if k < 0.85:
+        return ".".join(str(rng.randint(0, 12)) for _ in range(rng.randint(2, 3)))
+    return rng.choice(SLOT_HEAD) + "".join(rng.choice(SLOT_TAIL) for _ in range(rng.randint(0, 4)))
+
+
+def near_slot_name(rng, s):
+    """a different valid name close to s: other letter case, a numeric neighbour, one more / one less dotted component, a leading zero, one character
+    added, dropped or replaced"""
+    for _ in range(50):
+        k = rng.randrange(9)
+        t = s
+        if k == 0:
+            t = s.swapcase()
+        elif k == 1:
+            i = rng.randrange(len(s))
+            t = s[:i] + s[i].swapcase() + s[i + 1:]
+        elif k == 2 and s.isdigit():
+            t = rng.choice([str(int(s) + 1), str(max(int(s) - 1, 0)), s + "0", "0" + s, str(int(s) * 10 + rng.randint(0, 9))])
+        elif k == 3 and s.isdigit():
+            t = rng.choice([s, str(max(int(s) - 1, 0)), str(int(s) + 1)]) + "." + str(rng.randint(0, 11))
+        elif k == 4 and "." in s:
+            head, _, rest = s.partition(".")
+            t = rng.choice([head, s.rpartition(".")[0], (str(int(head) + 1) if head.isdigit() else head + "1"),
+                            (str(int(head) + 1) + "." + rest if head.isdigit() else rest)])
+        elif k == 5:
+            t = s + rng.choice(SLOT_TAIL)
+        elif k == 6 and len(s) > 1:
+            t = s[:-1] if rng.random() < 0.5 else s[1:]
+        elif k == 7:
+            i = rng.randrange(len(s))
+            t = s[:i] + rng.choice(SLOT_TAIL) + s[i + 1:]
+        elif k == 8:
+            t = s + rng.choice([".0", "a", "-r1", "_p"])
+        if t != s and valid_slot_name(t):
+            return t
+    return s + "_"
+
+
+def other_slot_name(rng, cur, allow_none=True):
+    """a slot / sub-slot name (or None) different from `cur`"""
+    for _ in range(50):
+        k = rng.random()
+        if cur is not None and k < 0.45:
+            t = near_slot_name(rng, cur)
+        elif allow_none and k < 0.55:
+            t = None
+        else:
+            t = gen_slot_name(rng)
+        if t != cur:
+            return t
+    return "0" if cur != "0" else "1"
+
+
 def gen_atom(rng):
     a = {"cat": rng.choice(CATS), "pkg": rng.choice(PKGS), "op": rng.choice(OPS), "ver": None, "rev": None,
          "blocks": False, "strong": False, "negate": False, "slot": None, "subslot": None, "slotop": None, "use": None, "repo": None}
@@ -221,9 +294,9 @@ def gen_atom(rng):
     a["negate"] = rng.random() < 0.1
     k = rng.random()
     if k < 0.35:
-        a["slot"] = rng.choice(SLOTS[1:])
+        a["slot"] = gen_slot_name(rng)
         if rng.random() < 0.4:
-            a["subslot"] = rng.choice(SLOTS[1:])
+            a["subslot"] = gen_slot_name(rng)
         if rng.random() < 0.3:
             a["slotop"] = "="
     elif k < 0.45:
@@ -280,13 +353,13 @@ def vary_atom(rng, a):
         elif f == "negate":
             b["negate"] = not a["negate"]
         elif f == "slot":
-            b["slot"] = rng.choice([x for x in SLOTS if x != a["slot"]])
+            b["slot"] = other_slot_name(rng, a["slot"])
             if b["slot"] is None:
                 b["subslot"] = None
             elif b["slotop"] == "*":
                 b["slotop"] = None
         elif f == "subslot" and a["slot"]:
-            b["subslot"] = rng.choice([x for x in SLOTS if x != a["subslot"]])
+            b["subslot"] = other_slot_name(rng, a["subslot"])
         elif f == "slotop":
             opts = [None, "="] if a["slot"] else [None, "=", "*"]
             b["slotop"] = rng.choice([x for x in opts if x != a["slotop"]])
@@ -372,7 +445,14 @@ ATOM_CORPUS = [
     (A(), A(op=">=", ver="0")),
     (A(blocks=True), A()),
     (A(op="=", ver="1"), A(op="=", ver="1", rev="1")),
+    # slot / sub-slot names of different spelling classes (number, dotted, word, letter case)
+    (A(slot="3"), A(slot="2.7")), (A(slot="0", subslot="10"), A(slot="0", subslot="1.2")), (A(slot="2"), A(slot="10")),
+    (A(slot="stable"), A(slot="Stable")), (A(slot="1"), A(slot="01")), (A(slot="0", subslot="2a"), A(slot="0", subslot="2A")),
+    (A(slot="0", subslot="1"), A(slot="0.1")), (A(slot="0"), A(slot="0", subslot="0")),
 ]
+
+SLOT_SHAPES = [dict(), dict(op=">=", ver="2.7.5", rev="1"), dict(blocks=True, strong=True, use=["x"]), dict(op="~", ver="3.11.0_p2", repo="gentoo"),
+               dict(slotop="=")]
 
 OPS6 = [operator.eq, operator.ne, operator.lt, operator.le, operator.gt, operator.ge]
 NAMES6 = ["==", "!=", "<", "<=", ">", ">="]
@@ -735,6 +815,15 @@ def run(ctx):
         for a, b in itertools.product(small, small):
             cases.append((a, b, "exhaustive"))
         ctx.extra["exhaustive_atom_pairs"] = len(small) ** 2
+    # bounded universe of slot / sub-slot names: every ordered pair of atoms that differ in the slot only, resp. in the sub-slot only
+    slot_groups = []
+    for shape in SLOT_SHAPES if not ctx.quick() else [SLOT_SHAPES[rng.randrange(len(SLOT_SHAPES))]]:
+        by_slot = [A(**shape)] + [A(slot=n, **shape) for n in SLOT_POOL]
+        by_sub = [A(slot="0", **shape)] + [A(slot="0", subslot=n, **shape) for n in SLOT_POOL]
+        for group in (by_slot, by_sub):
+            slot_groups.append(group)
+            for a, b in itertools.product(group, group):
+                cases.append((a, b, "slot-universe"))
     reqs = [{"cmd": "c02.atom", "a": a, "b": b} for a, b, _ in cases]
     built = []
     for (a, b, rel), rep in zip(cases, ctx.model(reqs)):
@@ -811,6 +900,10 @@ def run(ctx):
         chunk = objs[lo:lo + 30]
         if len(chunk) >= 3:
             pool_checks(ctx, "atom", [o for _, o in chunk], [t for t, _ in chunk])
+    for group in slot_groups:
+        texts = [atom_text(d) for d in group]
+        rng.shuffle(texts)
+        pool_checks(ctx, "atom", [atom(t, disable_inst_caching=True) for t in texts], texts)
     # ================================================================ objects that did not come out of the constructor
     import time as _time
     _t = _time.time()
